@@ -230,10 +230,35 @@ Proof. exact (reference_store secs lazy_ttl c k m e). Qed.
 Print Assumptions c05_reference_store.
 
 Theorem c05_reference_keeps secs lazy_ttl c o k :
-  (forall k' r, o <> OExec k' (Some r)) -> (forall a b d m, o <> OLoad k a b d m) ->
+  (forall k' r, o <> OExec k' (Some r)) -> (forall k' r, o <> OExecR k' (Some r)) ->
+  (forall a b d m, o <> OLoad k a b d m) ->
   c_st (fst (step_gen false secs lazy_ttl c o)) k = c_st c k.
 Proof. exact (reference_keeps secs lazy_ttl c o k). Qed.
 Print Assumptions c05_reference_keeps.
+
+(** ** The refresh path stores by the same rule *)
+
+(** The reply a background refresh (doLazyUpdate) obtains goes through the same
+    store decision as a foreground reply: if it must not be stored
+    ([save_decision = None], i.e. by c05_admission_exact / c05_never_stored:
+    truncated, zero-TTL NOERROR, any rcode other than 0/2/3, ...) then every
+    entry in the map after the query was there before — the stale entry is
+    not replaced and nothing new appears. Holds for the code ([drop = true])
+    and for the reference. *)
+Theorem c05_refresh_never_stores drop secs lazy_ttl c k m x e :
+  save_decision m lazy_ttl = None ->
+  c_st (fst (step_gen drop secs lazy_ttl c (OExecR k (Some m)))) x = Some e -> c_st c x = Some e.
+Proof. exact (refresh_never_stores drop secs lazy_ttl c k m x e). Qed.
+Print Assumptions c05_refresh_never_stores.
+
+(** and on a stale hit a storable reply replaces the stale entry, with the lifetimes of c05_lifetimes *)
+Theorem c05_refresh_stores secs lazy_ttl c k m e0 e :
+  c_st c k = Some e0 -> lazy_enabled lazy_ttl = true ->
+  e_msg_exp e0 <= c_now c + tick <= e_cache_exp e0 ->
+  save m lazy_ttl (c_now c + tick) = Some e ->
+  c_st (fst (step_gen true secs lazy_ttl c (OExecR k (Some m)))) k = Some e.
+Proof. exact (refresh_stores secs lazy_ttl c k m e0 e). Qed.
+Print Assumptions c05_refresh_stores.
 
 (** ** Non-vacuity *)
 
